@@ -1,5 +1,7 @@
 mod alloc;
 mod arena;
+mod callconv;
+mod asyncs;
 mod enc_arm;
 mod counter;
 mod cycles;
@@ -32,6 +34,8 @@ fn main() {
         "threads" => threads::run(&a, &mut out),
         "panics" => panics::run(&a, &mut out),
         "sigs" => sigs::run(&a, &mut out),
+        "asyncs" => asyncs::run(&a, &mut out),
+        "callconv" => callconv::run(&a, &mut out),
         x => {
             eprintln!("unknown command {x}");
             std::process::exit(2);
